@@ -203,13 +203,16 @@ def term(c, rep):
                                          cbool(k == "rng_slice_len"), o)
     if k in ("repeat", "repeat_big") and op in REPEAT_LEN:
         return "(CRepeat %s %d %s %s)" % (fb, REPEAT_LEN[op], cz(int(a[0])), o)
+    if k == "enum" and op.startswith("enumerate("):
+        n = int(op[len("enumerate("):-len(", a0)")].split(":")[1])
+        return "(CEnum %s %s %d %s)" % (fb, cz(int(a[0])), n, o)
     if k == "enum":
         inner = op[len("[p[0] for p in enumerate("):-len(", a0)]")]
         return "(CEnum %s %s %d %s)" % (fb, cz(int(a[0])), ENUM_N[inner], o)
     return None
 
 
-CAPS_QUICK = {"bin": 300, "cmp": 80, "un": 40, "cmpif": 150, "cmpfi": 150, "mixif": 20, "mixfi": 20, "parse": 50,
+CAPS_QUICK = {"enum": 60, "bin": 300, "cmp": 80, "un": 40, "cmpif": 150, "cmpfi": 150, "mixif": 20, "mixfi": 20, "parse": 50,
               "rng_in": 60, "rng_idx": 60, "rng_slice": 40, "rng_slice_len": 40}
 CAPS_THOROUGH = {"bin": 6000, "cmp": 2000, "cmpif": 2500, "cmpfi": 2500, "mixif": 800, "mixfi": 800, "parse": 2000,
                  "rng_in": 2000, "rng_idx": 2000}
@@ -343,7 +346,7 @@ def run(ctx):
         ctx.broken("correspondence:C10.Model", "model and implementation differ on %d case(s) where the specification is met, e.g. %s" % (len(only_model), c))
     cov = {
         "evaluations": evaluations, "distinct_nontrivial": len(terms),
-        "rule": "ordered product of the boundary pool {0, +-1, +-2, +-3, +-7, +-10, +-2^31(+-1), +-2^32(+-1), +-2^53(+-1), +-2^63(+-1), +-2^64(+-1), ...} x itself x 10 binary operators x 6 comparisons, unary operators, shifts by boundary counts, seeded random magnitudes up to 2^200, ints x float pool (subnormals, +-0, +-inf, NaN, halves, neighbours of 2^31/2^32/2^53/2^63/2^64) for comparisons / mixed arithmetic / conversions, for every magnitude band 2^31..2^52 and both signs an int n against n+-0.5, n+-0.25 and the adjacent floats, for bands 2^53..2^1022 the nearest float, its neighbours and the ints adjacent to them (all six operators, both operand orders), int(string, base) on printed and corrupted literals, int source literals of every radix spelling (decimal, 0x, 0X, 0o, 0O, 0b, 0B; sizes around 2^31..2^200) through the real scanner with negation / printing / int(text, 0) cross-checks, every callable member of starlark.Universe and lib/math.Module that accepts ints (enumerated at run time; abs, min, max, sorted, chr, bytes, ... and all math functions) on the boundary pool, range/enumerate/repetition on a machine-int boundary pool, each in both Int representations; evaluations = observations checked against the math/big oracle in the harness, distinct = distinct terms additionally evaluated in Coq against C10.Model and C10.Spec",
+        "rule": "ordered product of the boundary pool {0, +-1, +-2, +-3, +-7, +-10, +-2^31(+-1), +-2^32(+-1), +-2^53(+-1), +-2^63(+-1), +-2^64(+-1), ...} x itself x 10 binary operators x 6 comparisons, unary operators, shifts by boundary counts, seeded random magnitudes up to 2^200, ints x float pool (subnormals, +-0, +-inf, NaN, halves, neighbours of 2^31/2^32/2^53/2^63/2^64) for comparisons / mixed arithmetic / conversions, for every magnitude band 2^31..2^52 and both signs an int n against n+-0.5, n+-0.25 and the adjacent floats, for bands 2^53..2^1022 the nearest float, its neighbours and the ints adjacent to them (all six operators, both operand orders), int(string, base) on printed and corrupted literals, int source literals of every radix spelling (decimal, 0x, 0X, 0o, 0O, 0b, 0B; sizes around 2^31..2^200) through the real scanner with negation / printing / int(text, 0) cross-checks, every callable member of starlark.Universe and lib/math.Module that accepts ints (enumerated at run time; abs, min, max, sorted, chr, bytes, ... and all math functions) on the boundary pool, range/enumerate/repetition on a machine-int boundary pool, enumerate(iterable, start) and the element-walking built-ins over every kind of iterable (list, tuple, dict, set, range, str.elems/elem_ords/codepoints/codepoint_ords, bytes.elems, a host Iterable without length, a host Sequence), each in both Int representations; evaluations = observations checked against the math/big oracle in the harness, distinct = distinct terms additionally evaluated in Coq against C10.Model and C10.Spec",
         "samples": refs[:3] + refs[len(refs) // 2: len(refs) // 2 + 2],
         "distribution": dist,
         "coq_cases_per_kind": per_kind,
